@@ -253,6 +253,11 @@ class TypeEnv:
         args_s = [a for a in args_s if not a.startswith("'")]
         if name in ('Box', 'Rc', 'Arc', 'ManuallyDrop', 'MaybeUninit', 'MaybeDangling', 'Unique', 'NonNull') and args_s:
             return self.parse(args_s[0], sub)
+        if path.startswith(('std::ops::', 'core::ops::', 'std::ops::range::', 'core::ops::range::')) and name in ('Range', 'RangeInclusive', 'RangeFrom', 'RangeTo') and args_s:
+            a = self.parse(args_s[0], sub)
+            fields = {'Range': [('start', a), ('end', a)], 'RangeInclusive': [('start', a), ('end', a), ('exhausted', BOOL)],
+                      'RangeFrom': [('start', a)], 'RangeTo': [('end', a)]}[name]
+            return self._generic('ops::' + name, (a,), lambda: TStruct('ops::' + name, fields))
         if name == 'Vec' and args_s:
             e = self.parse(args_s[0], sub)
             return TVec(e, self.cap_for(e))
